@@ -6,7 +6,7 @@ import random
 
 from .common import h32, VERIF_DIR
 
-E1_PROPS = ('C01', 'C02', 'C03', 'C04', 'C05', 'C06', 'C07', 'C09', 'C10', 'C12', 'C18', 'C20')
+E1_PROPS = ('C01', 'C02', 'C03', 'C04', 'C05', 'C06', 'C07', 'C09', 'C10', 'C12', 'C16', 'C17', 'C18', 'C20')
 
 # violations of these other monitors count for the property when they occur in its scenarios
 ALSO = {
@@ -15,6 +15,7 @@ ALSO = {
     'C09': ('C01', 'C05'),                   # state after install = prefix; lagging follower converges
     'C10': ('C01', 'C02', 'C03', 'C04', 'C05'),   # membership changes preserve C01-C04 (and the cluster still converges)
     'C12': ('C01', 'C02', 'C05'),            # no stall, no split
+    'C17': ('C01',),
     'C18': ('C02', 'C04', 'C05'),
 }
 
@@ -29,6 +30,8 @@ CASES = {
     'C09': {'quick': 1000, 'thorough': 14000},
     'C10': {'quick': 1400, 'thorough': 20000},
     'C12': {'quick': 1200, 'thorough': 16000},
+    'C16': {'quick': 700, 'thorough': 10000},
+    'C17': {'quick': 900, 'thorough': 14000},
     'C18': {'quick': 1400, 'thorough': 20000},
     'C20': {'quick': 1600, 'thorough': 24000},
 }
@@ -50,6 +53,8 @@ DECIDING = {
     'C10': ('request_while_change_uncommitted', 'membership_entry_truncated', 'leader_with_uncommitted_change', 'shrunk_to_one',
             'membership_change_committed', 'removed_node_shut_down'),
     'C12': ('apply_raised', 'raise_on_follower', 'raise_replayed_after_restart'),
+    'C16': ('lock_acquired', 'late_acquisition_reply', 'holder_stops_prolonging', 'displaced_after_expiry', 'release_by_non_holder'),
+    'C17': ('version_switch_requested', 'old_node_replaced_by_new_code', 'call_resolved_to_higher_version', 'version_request_rejected'),
     'C18': ('ro_join', 'ro_leave', 'ro_submit', 'voters_without_majority_observers_connected'),
     'C20': ('leader_silent_half_timeout', 'leader_stepdown', 'quorum_flag_false', 'leader_cut_off'),
 }
@@ -178,6 +183,40 @@ def gen_cfg(prop, tier, seed, i):
         cfg['sim'] = 'member'
         cfg['readd_anytime'] = False    # literal-discipline re-adds (listed hazard) are not generated, see DESIGN.md
         cfg['wait_leader'] = r.random() < 0.3
+    if prop == 'C16':
+        cfg['sim'] = 'lock'
+        cfg['n'] = pick(r, [2, 3, 3])
+        cfg['journal'] = 'memory'
+        cfg['compact_min'] = pick(r, [10 ** 9, 20])
+        cfg['auto_unlock'] = pick(r, [2.0, 4.0, 8.0])
+        cfg['n_locks'] = pick(r, [1, 2])
+        cfg['batch'] = 65536
+        cfg['chunk'] = 65536
+        cfg['queue'] = 100000
+        cfg['steps'] = pick(r, [600, 1500, 3000])
+        w['submit'] = 0.5
+        w['partition'] = w['partition'] * pick(r, [0, 1, 2])
+        w['drop'] = w['drop'] * pick(r, [0, 0.5, 1])
+        cfg['w_lock'] = pick(r, [2.0, 5.0])
+        cfg['w_grant'] = pick(r, [6.0, 15.0])
+        cfg.pop('consumers', None)
+        cfg.pop('big_args', None)
+    if prop == 'C17':
+        cfg['sim'] = 'version'
+        cfg['n'] = pick(r, [2, 3, 3, 4])
+        cfg['n_old'] = pick(r, [0, 1, 1, 2])
+        cfg['journal'] = 'file+dump'
+        cfg['compact_min'] = pick(r, [5, 20, 10 ** 9])
+        w['compact'] = pick(r, [0.2, 0.8])
+        w['kill'] = pick(r, [0.0, 0.2])
+        w['restart'] = 1.5
+        cfg['w_version'] = pick(r, [0.1, 0.3])
+        cfg['w_replace'] = pick(r, [0.2, 0.6])
+        cfg['batch'] = pick(r, [200, 4096, 65536])
+        cfg['chunk'] = pick(r, [50, 65536])
+        cfg['queue'] = 100000
+        cfg.pop('consumers', None)
+        cfg.pop('big_args', None)
     if prop == 'C12':
         cfg['raising'] = True
         cfg['consumers'] = ['list', 'set']
@@ -205,6 +244,12 @@ def make_sim(prop, cfg, seed):
     if cfg.get('sim') == 'member':
         from .membership import MemberSim
         sim = MemberSim(cfg, seed)
+    elif cfg.get('sim') == 'version':
+        from .vergen import VerSim
+        sim = VerSim(cfg, seed)
+    elif cfg.get('sim') == 'lock':
+        from .locks import LockSim
+        sim = LockSim(cfg, seed)
     else:
         sim = Sim(cfg, seed)
     for name in cfg.get('ext', []):
@@ -268,6 +313,8 @@ def run_seed_of(prop, seed, i):
 
 
 def run_case(prop, tier, seed, i):
+    if prop == 'C16' and i % 5 == 4:
+        return lock_direct_case(seed, i)
     cfg = gen_cfg(prop, tier, seed, i)
     rs = run_seed_of(prop, seed, i)
     sim = make_sim(prop, cfg, rs)
@@ -290,6 +337,14 @@ def save_replay(prop, cfg, run_seed, case, sim, rec):
 def replay(prop, path):
     with open(path) as f:
         doc = json.load(f)
+    if doc.get('direct'):
+        res = lock_direct_case(doc['seed'], doc['case'])
+        for v in res['violations']:
+            print('REPLAYED ' + json.dumps(v, default=str))
+            print('VIOLATION property=%s replay=%s' % (prop, path))
+            return 1
+        print('not reproduced')
+        return 0
     sim = make_sim(prop, doc['cfg'], doc['seed'])
     sim.run()
     want = doc['violation']
@@ -309,3 +364,24 @@ def replay(prop, path):
     print('not reproduced: %s/%s (run ended after %d steps, violations now: %s)'
           % (want['prop'], want['kind'], sim.step, [(v.prop, v.kind) for v in sim.violations]))
     return 0
+
+
+def lock_direct_case(seed, i):
+    from .locks import direct_case
+    r = random.Random(h32('lockdirect', seed, i))
+    res = {'runs': 1, 'violations': [], 'sit': {'lock_table_direct': 1}, 'obs': {}, 'escaped': {}, 'inconclusive': None, 'other_props': {}}
+    nops = 0
+    for k in range(40):
+        msg, n = direct_case(r)
+        nops += n
+        if msg is not None:
+            path = os.path.join(VERIF_DIR, 'replays', 'C16-direct-%d-%d.json' % (seed, i))
+            os.makedirs(os.path.dirname(path), exist_ok=True)
+            rec = {'prop': 'C16', 'kind': 'lock_table_differs_from_reference', 'msg': msg, 'facts': {}, 'replay': path}
+            with open(path, 'w') as f:
+                json.dump({'property': 'C16', 'engine': 'rv.e1', 'direct': True, 'seed': seed, 'case': i, 'violation': rec}, f, indent=1)
+            res['violations'].append(rec)
+            break
+    res['obs']['lock_table_direct_ops'] = nops
+    res['nontrivial_fps'] = [h32('lockdirect', i)]
+    return res
